@@ -235,9 +235,9 @@ def blocks(tier):
         Block("v2.env_free", "2", spaces.v2_base_skeleton(), spaces.v2_temporal_skeleton()[:3],
               spaces.ABSENT + spaces.v2_env_effective()),
         Block("v3.base_x_temporal", "3.0", spaces.v3_base_all(),
-              spaces.v3_temporal_skeleton(6) + spaces.v3_temporal_spellings()[::5], twin="3.1"),
+              spaces.v3_temporal_skeleton(6) + spaces.thin(spaces.v3_temporal_spellings(), 5), twin="3.1"),
         Block("v3.override", "3.0", spaces.v3_modified_over_complementary_base(),
-              spaces.v3_temporal_skeleton(2), spaces.v3_req_all()[::3], twin="3.1"),
+              spaces.v3_temporal_skeleton(2), spaces.thin(spaces.v3_req_all(), 3), twin="3.1"),
     ] + spaces.v4_blocks("quick", "short", ("min", "mid")) + \
         spaces.v4_blocks("quick", "override", ("min", "min"))[1:]
 
@@ -249,9 +249,9 @@ def build_sets(thorough):
     v4parts = spaces.v4_blocks("quick", "short", ("mid", "mid"))
     v4all = []
     for b in v4parts:
-        for fa, da in b.A[::2 if not thorough else 1]:
-            for fb, db in b.B[::5 if not thorough else 1]:
-                for fc, dc in b.C[::3]:
+        for fa, da in spaces.thin(b.A, 2 if not thorough else 1):
+            for fb, db in spaces.thin(b.B, 5 if not thorough else 1):
+                for fc, dc in spaces.thin(b.C, 3):
                     d = dict(da)
                     d.update(db)
                     d.update(dc)
